@@ -661,3 +661,46 @@ func expiryCreateRounds(seed uint64, rounds int) []string {
 	}
 	return nil
 }
+
+// versionBurstRounds (in-memory): a waiter is parked on (k, v); 255 / 256 / 511 / ... versions are allocated for another key
+// as fast as the store goes, then k is written again - all of it, as often as not, within one tick of whatever clock
+// the version allocator uses.  That write is a change of k's version whatever the version strings look like: the
+// waiter returns nil.
+func versionBurstRounds() []string {
+	bg := context.Background()
+	for _, n := range []int{255, 511, 256, 254, 767, 1023} {
+		for try := 0; try < 60; try++ {
+			st := inmem.New()
+			r0, err := st.Put(bg, kvs.Record{Key: "k", Value: []byte("v")})
+			if err != nil {
+				return []string{"version-burst rounds: Put failed: " + err.Error()}
+			}
+			ctx, cancel := context.WithTimeout(bg, 10*time.Second)
+			done := make(chan error, 1)
+			go func() { done <- st.WaitForVersionChange(ctx, "k", r0.Version) }()
+			for t0 := time.Now(); inmem.VerifWaiters(st)["k"] < 1 && time.Since(t0) < 2*time.Millisecond; {
+			}
+			for i := 0; i < n; i++ {
+				st.Put(bg, kvs.Record{Key: "other", Value: []byte("o")})
+			}
+			st.Put(bg, kvs.Record{Key: "k", Value: []byte("w")})
+			select {
+			case err := <-done:
+				cancel()
+				if err != nil {
+					return []string{fmt.Sprintf("a waiter returned %v after its key was written again (context alive)", err)}
+				}
+				continue
+			case <-time.After(300 * time.Millisecond):
+			}
+			select {
+			case <-done:
+				cancel()
+			case <-time.After(3 * time.Second):
+				cancel()
+				return []string{fmt.Sprintf("a waiter parked on (key, version) is still parked 3.3 s after the key was written again (%d versions had been handed out for another key in between, all within about %v)", n, time.Duration(n)*200*time.Nanosecond)}
+			}
+		}
+	}
+	return nil
+}
